@@ -431,7 +431,8 @@ def f30_shape(src_bytes, g, m):
 class C02(Base):
     ID = "C02"
     AREA = "spec"
-    LEMMA_FILES = ["FluentProofs/SpecLex.lean", "FluentProofs/SpecDedent.lean", "FluentProofs/SpecFuel.lean"]
+    LEMMA_FILES = ["FluentProofs/SpecLex.lean", "FluentProofs/SpecDedent.lean", "FluentProofs/SpecFuel.lean",
+                   "FluentProofs/SpecRefine.lean", "FluentProofs/SpecPatFlat.lean", "FluentProofs/SpecPatLoop.lean"]
     SEARCH_FACTOR = 2
     RULE = ("ref: the 68 reference trees of the repo (tests/fixtures/*.json + fixtures/benches/**/*.json) against the executable "
             "grammar and the parser; G2: random well-formed ASTs (all expression forms at all nesting positions, multi-line "
